@@ -6,6 +6,8 @@ import Pyab.Properties.C06
 #print axioms Pyab.Properties.C06_lex_all_raise
 #print axioms Pyab.Properties.C06_lex_no_skip
 #print axioms Pyab.Properties.C06_lex_tokens_from_pieces
+#print axioms Pyab.Properties.evaluator_digest_of_exact_text
+#print axioms Pyab.Properties.evaluator_checksum_after_install
 #print axioms Pyab.Properties.C06_tables_are_documented_grammar
 #print axioms Pyab.Properties.C06_documented_grammar_in_tables
 #print axioms Pyab.Properties.C06_startSym
